@@ -170,6 +170,7 @@ type Sys struct {
 	panicked  bool
 	fragEarly bool // a piece other than the last one of a unit produced something
 	sentEnc   map[string]bool // texts given to Send while the sender was encrypted (i.e. transmitted at once)
+	refused   map[string]bool // texts whose Send call returned an error
 	lastOp    map[int]string  // the most recent API call of each party
 }
 
@@ -461,6 +462,12 @@ func (s *Sys) Send(who int, text []byte) [][]byte {
 			o, e := p.c.Send(text)
 			return nil, o, e
 		})
+	if s.calls[len(s.calls)-1].err {
+		if s.refused == nil {
+			s.refused = map[string]bool{}
+		}
+		s.refused[string(text)] = true
+	}
 	return outs
 }
 
